@@ -114,5 +114,7 @@ def run(S, tier, rep):
     for relfile, cls, dim in CASES:
         check_case(S, rep, relfile, cls, dim)
     freshness(S, rep, "C09.b")
+    from .c10 import wrappers_forward_options
+    wrappers_forward_options(S, rep, rule="C09.w", family_root="ImmersedBodyForcingGrid", min_found=10)
     rep.require_min("C09.a", 40)
     rep.require_min("C09.b", 40)
